@@ -17,8 +17,9 @@ The bodies of the small arithmetic functions are matched against the one shape t
 import os
 import re
 
+import dispatchx as dx
 import gen
-from gen import GenError, REPO, GEN, strip_comments, const_init, const_int, eval_int, match_arms, run_pattern, \
+from gen import GenError, REPO, GEN, strip_comments, const_init, const_int, eval_int, match_arms, \
     coq_nlist, coq_str, write_if_changed
 
 HEADER = ("(* GENERATED from /repo by tools/genx_maps.py on every run -- do not edit *)\n"
@@ -85,13 +86,26 @@ def block_arms(arms):
     return out
 
 
+def name_run(n):
+    """the run number a table documents in its name: PADWING_BOARDS_4418 -> 4418 ("as installed in run X (included)")"""
+    m = re.search(r"_(\d+)$", n)
+    if not m:
+        raise GenError("table %s does not name its first run" % n)
+    return int(m.group(1))
+
+
 def const_names(src, prefix):
-    return re.findall(r"\bconst\s+(%s\w*)\s*:" % prefix, src)
+    """the `const <prefix>*` tables of the file (any module), ordered by the run number in their name: the order
+    of the items in the source carries no meaning"""
+    names = re.findall(r"\bconst\s+(%s\w*)\s*:" % prefix, src)
+    if len(set(names)) != len(names):
+        raise GenError("two constants of the same name among %r" % names)
+    return sorted(names, key=lambda n: (name_run(n), n))
 
 
 def lazy_refs(src, fn):
-    """`static ref A: .. = fn(B);` -> {A: B}"""
-    return dict(re.findall(r"static\s+ref\s+(\w+)\s*:[^=;]*=\s*%s\s*\(\s*(\w+)\s*\)\s*;" % fn, src))
+    """`static ref A: .. = fn(B);` / `fn(&B)` -> {A: B}"""
+    return dict(re.findall(r"static\s+ref\s+(\w+)\s*:[^=;]*=\s*%s\s*\(\s*&?\s*(\w+)\s*\)\s*;" % fn, src))
 
 
 def int_env(src, names, env=None):
@@ -103,46 +117,202 @@ def int_env(src, names, env=None):
     return env
 
 
-def arms_to_coq(arms, resolve, what):
-    out, seen_any = [], False
-    for p, b in arms:
-        if seen_any:
-            raise GenError("%s: arm after `_`" % what)
-        kind, v = run_pattern(p)
-        pat = {"eq": "PEq %s" % v, "ge": "PGe %s" % v, "any": "PAny"}[kind]
-        if kind == "any":
-            seen_any = True
-        out.append("(%s, %s)" % (pat, resolve(b)))
-    if not seen_any:
-        raise GenError("%s: no `_` arm" % what)
-    return "[" + "; ".join(out) + "]"
-
-
 def name_runs(names):
-    """the run number a table documents in its name: PADWING_BOARDS_4418 -> 4418 ("as installed in run X (included)")"""
-    out = []
-    for n in names:
-        m = re.search(r"_(\d+)$", n)
-        if not m:
-            raise GenError("table %s does not name its first run" % n)
-        out.append(int(m.group(1)))
-    return coq_nlist(out)
+    return coq_nlist([name_run(n) for n in names])
 
 
-def index_resolver(names, lazy, what):
-    def resolve(body):
-        b = body.strip()
-        if re.fullmatch(r"return\s+Err\s*\(\s*[\w:]+\s*(\{[^{}]*\})?\s*\)", b):
-            return "None"
-        m = re.fullmatch(r"&\s*\*?\s*(\w+)", b)
-        if not m:
-            raise GenError("%s: unknown arm body %r" % (what, body))
-        n = m.group(1)
+def table_resolver(families, lazy, what):
+    """leaf of a dispatch -> None (no map) | (family, index of the table in that family)"""
+    def resolve(leaf):
+        if dx.leaf_is_err(leaf):
+            return None
+        n = dx.leaf_table(leaf)
+        if n is None:
+            raise GenError("%s: unknown arm body %r" % (what, dx.show(leaf)))
         n = lazy.get(n, n)
-        if n not in names:
-            raise GenError("%s: arm refers to unknown table %r" % (what, n))
-        return "Some %d" % names.index(n)
+        for fam, names in families.items():
+            if n in names:
+                return (fam, names.index(n))
+        raise GenError("%s: arm refers to unknown table %r" % (what, n))
     return resolve
+
+
+def syntactic_dispatches(src, marker, families, lazy, what, after=None):
+    """({family: canonical arms with table indices}, [reasons]) of the `let x = <decision tree on run_number>`
+    statements of the function at marker; one dispatch per family (which one selects which family is decided by the
+    bodies).  A family missing from the result could not be read: the reasons say why."""
+    found, why = {}, []
+    try:
+        consts = dx.int_consts(src)
+        block = dx.parse_body(fn_body(src, marker, after=after))
+        early, lets = dx.dispatch_statements(block)
+    except GenError as e:
+        return {}, [str(e)]
+    resolve = table_resolver(families, lazy, what)
+    for k, name, node in lets:
+        try:
+            f = dx.tree_function([e for j, e in early if j < k] + [node], consts, resolve)
+            fams = {v[0] for v in f.values() if v is not None}
+            if len(fams) != 1:
+                raise GenError("`let %s` selects tables of %d families" % (name, len(fams)))
+            fam = fams.pop()
+            if fam in found:
+                raise GenError("two dispatches select %s tables" % fam)
+            found[fam] = dx.canonical_arms({r: (None if v is None else v[1]) for r, v in f.items()})
+        except GenError as e:
+            why.append("let %s: %s" % (name, e))
+    for fam in families:
+        if fam not in found and not why:
+            why.append("no `let .. = match/if` on run_number selecting a %s table" % fam)
+    return found, why
+
+
+def settle(what, src, families, found, why, helper_ok, helper, answers_of, predict, notes):
+    """complete `found` by probing the implementation when a dispatch could not be read, or check the table-building
+    helper of unknown shape against the implementation; appends the explanatory comments to notes"""
+    missing = [f for f in families if f not in found]
+    if not missing and helper_ok:
+        return found
+    runs = dx.candidate_runs(src)
+    answers = answers_of(runs)
+    cache = {}
+
+    def matches(sel, r):
+        key = tuple(sorted(sel.items(), key=lambda kv: kv[0]))
+        if key not in cache:
+            cache[key] = predict(sel)
+        return cache[key] == answers[r]
+    nomap = predict({f: None for f in families})
+    rec = dx.reconstruct(what, runs, {f: list(range(len(families[f]))) for f in families}, found, matches,
+                         lambda r: answers[r] == nomap, more=lambda rs: answers.update(answers_of(rs)))
+    if missing:
+        notes.append(PROBE_NOTE % (dx.FALLBACK_MARK, what + " " + ", ".join(missing), dx.comment_safe("; ".join(why)),
+                                   len(runs)))
+    if not helper_ok:
+        notes.append("(* %s: %s has a shape the translator does not know; instead, the implementation's complete table was\n"
+                     "   compared with the one built from the parsed constants at %d candidate run numbers: equal. *)\n"
+                     % (what, helper, len(runs)))
+    out = dict(found)
+    out.update(rec)
+    return out
+
+
+# ---------------------------------------------------------------------------------------------
+# the implementation's complete tables (harness `vdet obs`, case line `run <n>`, harness/det/src/c08.rs obs_run),
+# recomputed here from the parsed tables: used to reconstruct a dispatch the front end cannot read and to check a
+# table-building helper of unknown shape
+HASH_P = (1 << 61) - 1
+
+
+def table_obs(n, codes):
+    h, nok, seen = 0, 0, {}
+    for v in codes:
+        h = (h * 1000003 + v + 1) % HASH_P
+        if v < n:
+            nok += 1
+            seen[v] = seen.get(v, 0) + 1
+    bij = nok == n and all(seen.get(i, 0) == 1 for i in range(n))
+    return "%d/%d/%d" % (nok, h, 1 if bij else 0)
+
+
+def known_boards(rel, const):
+    """harness `known()`: the two-character names over 0-9 A-Z (ascending) BoardId::try_from accepts"""
+    rows = const_init(read(rel), const)
+    return sorted({r[0] for r in rows if re.fullmatch(r"[0-9A-Z]{2}", r[0])})
+
+
+def wire_obs(boards, nw, prows, ctab, pos_rows):
+    """`w=` part of `run <n>` when the preamp table prows and the channel table ctab are selected (None: no map)"""
+    n = len(boards) * 32
+    if prows is None or ctab is None:
+        return table_obs(nw, [nw] * n)
+    if any(name not in boards for name, _ in prows):
+        return table_obs(nw, [nw + 1] * n)           # BoardId::try_from(..).unwrap() panics while the map is built
+    pm = {name: pre for name, pre in prows}          # HashMap: a later row replaces an earlier one
+    codes = []
+    for b in boards:
+        for ch in range(32):
+            if b not in pm:
+                codes.append(nw)
+                continue
+            if ch >= len(ctab):
+                codes.append(nw + 1)
+                continue
+            mc = ctab[ch]
+            hit = [r for r in pos_rows if r[0] <= mc <= r[1]]
+            if not hit:
+                codes.append(nw + 1)                 # unreachable!()
+                continue
+            _, _, (k, mult, sub) = hit[0]
+            codes.append(pm[b][k - 1] * mult + (mc - sub))
+    return table_obs(nw, codes)
+
+
+def pad_obs(boards, env, cols, inv_pads):
+    """`p=` part of `run <n>` when the PWB table cols is selected (None: no map)"""
+    npads = env["TPC_PADS"]
+    n = len(boards) * 4 * 72
+    if cols is None:
+        return table_obs(npads, [npads] * n)
+    if any(name not in boards for c in cols for name in c):
+        return table_obs(npads, [npads + 1] * n)
+    inv = {}
+    for c, col in enumerate(cols):
+        for r, name in enumerate(col):
+            if c >= env["TPC_PWB_COLUMNS"] or r >= env["TPC_PWB_ROWS"]:
+                return table_obs(npads, [npads + 1] * n)
+            inv[name] = (c, r)
+    pads = dict(inv_pads)
+    codes = []
+    for b in boards:
+        for a in range(4):
+            for ch in range(1, 73):
+                if b not in inv:
+                    codes.append(npads)
+                    continue
+                if (a, ch) not in pads:
+                    codes.append(npads + 1)
+                    continue
+                (c, r), (pc, pr) = inv[b], pads[(a, ch)]
+                column, row = c * env["PWB_PAD_COLUMNS"] + pc, r * env["PWB_PAD_ROWS"] + pr
+                if column >= env["TPC_PAD_COLUMNS"] or row >= env["TPC_PAD_ROWS"]:
+                    codes.append(npads + 1)
+                    continue
+                codes.append(column * env["TPC_PAD_ROWS"] + row)
+    return table_obs(npads, codes)
+
+
+_PROBE = {}
+
+
+def probe(runs):
+    """{run: (w part, p part)} of the implementation"""
+    import vlib
+    need = [r for r in runs if r not in _PROBE]
+    if need:
+        exe, out = vlib.build_harness("det")
+        if exe is None:
+            raise GenError("det harness does not build against /repo: " + out[-600:])
+        rc, out = vlib.sh([exe, "obs"], stdin="".join("run %d\n" % r for r in need).encode(), timeout=900)
+        lines = out.split("\n")
+        if rc != 0 or len(lines) < len(need):
+            raise GenError("probing the implementation (`run <n>`) failed: %r" % out[:300])
+        for r, line in zip(need, lines):
+            m = re.fullmatch(r"(?:ok|err) w=(\S+) p=(\S+)", line.strip())
+            if not m:
+                raise GenError("probing the implementation: run %d: unexpected answer %r" % (r, line[:80]))
+            _PROBE[r] = (m.group(1), m.group(2))
+    return {r: _PROBE[r] for r in runs}
+
+
+PROBE_NOTE = ("%s\n(* %s: the front end could not read the dispatch (%s).\n"
+              "   The implementation was evaluated at %d candidate run numbers (every integer literal and integer constant of\n"
+              "   the source file, each +-1, and 0, 1, u32::MAX-1, u32::MAX); at each one the parsed table whose COMPLETE content\n"
+              "   reproduces the implementation's answer was identified.  ASSUMPTION: the dispatch is constant between\n"
+              "   consecutive candidates with the same answer (a change between two candidates is located by bisection); the\n"
+              "   differential run (arm boundaries +-2 and a stride of runs) checks it.\n"
+              "   Where the implementation has no map at all (every entry an error) a dispatch hidden behind another one's error\n"
+              "   cannot be observed: a reconstructed dispatch says None there. *)\n")
 
 
 # ---------------------------------------------------------------------------------------------
@@ -181,24 +351,14 @@ def gen_wire_maps():
 
     lazy = lazy_refs(src, "preamps_map")
     body = norm(fn_body(src, "fn preamps_map"))
-    if "BoardId::try_from(*board_name).unwrap()" not in body or "m.insert(" not in body:
-        raise GenError("aw_map.rs: preamps_map has an unknown shape")
+    helper_ok = "BoardId::try_from(*board_name).unwrap()" in body and "m.insert(" in body
     marker = "pub fn try_new"
-    a0 = match_arms(src, marker, "run_number", 0)
-    a1 = match_arms(src, marker, "run_number", 1)
-    if len(list(re.finditer(r"\bmatch\s+run_number\s*\{", src))) != 2:
-        raise GenError("aw_map.rs: expected exactly two `match run_number`")
-    # which match selects which family is decided by the bodies
-    t += "(* TpcWirePosition::try_new: first `match run_number` (preamp map), arms in source order *)\n"
-    t += "Definition preamp_arms : list (rpat * option N) :=\n  %s.\n" % arms_to_coq(
-        a0, index_resolver(pnames, lazy, "preamp match"), "preamp match")
-    t += "(* second `match run_number` (channel map) *)\n"
-    t += "Definition channel_arms : list (rpat * option N) :=\n  %s.\n\n" % arms_to_coq(
-        a1, index_resolver(cnames, {}, "channel match"), "channel match")
+    families = {"preamp": pnames, "channel": cnames}
+    found, why = syntactic_dispatches(src, "fn try_new", families, lazy, "aw_map.rs", after="impl TpcWirePosition {")
 
     # match mapped_channel { lo..=hi => preamp_k * M + mapped_channel | preamp_k * M + (mapped_channel - S), _ => unreachable!() }
     arms = match_arms(src, marker, "mapped_channel", 0)
-    rows = []
+    rows, pos_rows = [], []
     for i, (p, b) in enumerate(arms):
         b = norm(b)
         if p == "_":
@@ -210,8 +370,26 @@ def gen_wire_maps():
         if not m or not mb:
             raise GenError("aw_map.rs: unknown arm of `match mapped_channel`: %r => %r" % (p, b))
         rows.append("(%s, %s, (%s, %s, %s))" % (m.group(1), m.group(2), mb.group(1), mb.group(2), mb.group(3) or "0"))
+        pos_rows.append((int(m.group(1)), int(m.group(2)), (int(mb.group(1)), int(mb.group(2)), int(mb.group(3) or "0"))))
     if not re.search(r"let\s+mapped_channel\s*=\s*channel_map\s*\[\s*usize::from\(channel_id\.0\)\s*\]\s*;", src):
         raise GenError("aw_map.rs: unknown shape of the channel lookup")
+
+    notes = []
+    if len(found) < 2 or not helper_ok:
+        boards = known_boards("detector/src/alpha16.rs", "ALPHA16BOARDS")
+        ptabs = [[(r[0], tuple(r[1])) for r in const_init(src, n)] for n in pnames]
+        ctabs = [const_init(src, n) for n in cnames]
+        found = settle("aw_map.rs TpcWirePosition::try_new", src, families, found, why, helper_ok, "preamps_map",
+                       lambda runs: {r: a[0] for r, a in probe(runs).items()},
+                       lambda sel: wire_obs(boards, env["TPC_ANODE_WIRES"],
+                                            None if sel["preamp"] is None else ptabs[sel["preamp"]],
+                                            None if sel["channel"] is None else ctabs[sel["channel"]], pos_rows),
+                       notes)
+    t += "".join(notes)
+    t += "(* TpcWirePosition::try_new: first `match run_number` (preamp map), arms in source order *)\n"
+    t += "Definition preamp_arms : list (rpat * option N) :=\n  %s.\n" % dx.coq_arms(found["preamp"])
+    t += "(* second `match run_number` (channel map) *)\n"
+    t += "Definition channel_arms : list (rpat * option N) :=\n  %s.\n\n" % dx.coq_arms(found["channel"])
     t += "(* `match mapped_channel`: (lo, hi, (which preamp, multiplier, subtracted)) ; `_ => unreachable!()` *)\n"
     t += "Definition wire_pos_arms : list (N * N * (N * N * N)) := [%s].\n\n" % "; ".join(rows)
 
@@ -346,21 +524,28 @@ def gen_pad_maps():
     want = ("let mut inverse = HashMap::new(); for (column, row) in map.iter().enumerate() { for (row, name) in "
             "row.iter().enumerate() { inverse.insert( BoardId::try_from(*name).unwrap(), TpcPwbPosition { column: "
             "TpcPwbColumn::try_from(column).unwrap(), row: TpcPwbRow::try_from(row).unwrap(), }, ); } } inverse")
-    if body != want:
-        raise GenError("padwing/map.rs: inverse_pwb_map has an unknown shape")
-    marker = "pub fn try_new(run_number: u32, board_id: BoardId)"
-    arms = match_arms(src, marker, "run_number", 0)
-    if len(list(re.finditer(r"\bmatch\s+run_number\s*\{", src))) != 1:
-        raise GenError("padwing/map.rs: expected exactly one `match run_number`")
-    t += "(* TpcPwbPosition::try_new: `match run_number`, arms in source order *)\n"
-    t += "Definition pwb_arms : list (rpat * option N) :=\n  %s.\n\n" % arms_to_coq(
-        arms, index_resolver(bnames, lazy, "pwb match"), "pwb match")
+    helper_ok = body == want
+    families = {"pwb": bnames}
+    found, why = syntactic_dispatches(src, "fn try_new", families, lazy, "padwing/map.rs", after="impl TpcPwbPosition {")
 
     # PwbPadPosition::try_new ignores the run number and uses INV_PADS_0
     body = norm(fn_body(src, ") -> Result<PwbPadPosition, MapPwbPadPositionError>"))
     if body != "let position_map = &INV_PADS_0; Ok(*position_map.get(&(after_id, pad_channel_id)).unwrap())":
         raise GenError("padwing/map.rs: PwbPadPosition::try_new has an unknown shape")
     tab = interpret_inv_pads(src)
+
+    notes = []
+    if not found or not helper_ok:
+        boards = known_boards("detector/src/padwing.rs", "PADWING_BOARDS")
+        tabs = [const_init(src, n) for n in bnames]
+        found = settle("padwing/map.rs TpcPwbPosition::try_new", src, families, found, why, helper_ok, "inverse_pwb_map",
+                       lambda runs: {r: a[1] for r, a in probe(runs).items()},
+                       lambda sel: pad_obs(boards, env, None if sel["pwb"] is None else tabs[sel["pwb"]], tab),
+                       notes)
+    t += "".join(notes)
+    t += "(* TpcPwbPosition::try_new: `match run_number`, arms in source order *)\n"
+    t += "Definition pwb_arms : list (rpat * option N) :=\n  %s.\n\n" % dx.coq_arms(found["pwb"])
+
     t += "(* INV_PADS_0, interpreted: ((after, pad channel), (column, row)) *)\n"
     t += "Definition inv_pads_0 : list (N * N * (N * N)) :=\n  [" + ";\n   ".join(
         "; ".join("(%d, %d, (%d, %d))" % (a, c, col, row) for (a, c), (col, row) in tab[i:i + 6])
